@@ -91,10 +91,10 @@ def rank_gf2(vectors):
     return rank
 
 
-def analyse(pos, cell, pbc, radii, threshold):
+def analyse(pos, cell, pbc, radii, threshold, band=1e-9):
     """Returns dict(components=[[...]], n_components, rank_z, rank_gf2, borderline)."""
     n = len(pos)
-    edges, borderline = bond_edges(pos, cell, pbc, radii, threshold)
+    edges, borderline = bond_edges(pos, cell, pbc, radii, threshold, band=band)
     parent = list(range(n))
     pot = [np.zeros(3, dtype=int) for _ in range(n)]   # cell offset of an atom relative to its parent
 
@@ -132,8 +132,8 @@ def analyse(pos, cell, pbc, radii, threshold):
             "borderline": borderline, "n_edges": len(edges)}
 
 
-def expected_dimensionality(pos, cell, pbc, radii, threshold):
-    a = analyse(pos, cell, pbc, radii, threshold)
+def expected_dimensionality(pos, cell, pbc, radii, threshold, band=1e-9):
+    a = analyse(pos, cell, pbc, radii, threshold, band=band)
     if a["n_components"] > 1:
         return None, a
     if not np.any(pbc):
